@@ -772,7 +772,7 @@ class Parser:
         return expr
 
     def _continue_parsing_expression(
-        self, left: Node, exclude_in: bool = False
+        self, left: Node, exclude_in: bool = False, allow_sequence: bool = True
     ) -> Node:
         """Continue parsing an expression after we already have the left-hand side.
 
@@ -809,7 +809,7 @@ class Parser:
             left = AssignmentExpression(op, left, right)
 
         # Then sequence (comma)
-        if self._check(TokenType.COMMA):
+        if allow_sequence and self._check(TokenType.COMMA):
             expressions = [left]
             while self._match(TokenType.COMMA):
                 expressions.append(self._parse_assignment_expression(exclude_in))
@@ -962,8 +962,10 @@ class Parser:
 
     def _parse_postfix_expression(self) -> Node:
         """Parse postfix expression (member access, calls, postfix ++/--)."""
-        expr = self._parse_new_expression()
+        return self._parse_postfix_operators(self._parse_new_expression())
 
+    def _parse_postfix_operators(self, expr: Node) -> Node:
+        """Apply member accesses, calls and postfix ++/-- to an already parsed operand."""
         while True:
             if self._match(TokenType.DOT):
                 # Member access: a.b (keywords allowed as property names)
@@ -1059,8 +1061,10 @@ class Parser:
                 # If there are more parens to close and we're not at the last one,
                 # check if there are operators between this ) and the next
                 if i < paren_depth - 1:
-                    # Continue parsing any operators that might be between parens
+                    # Continue parsing anything that follows the inner group before
+                    # the next ')': member access / call like ((a).b), then operators
                     # like in ((-Infinity) | 0)
+                    expr = self._parse_postfix_operators(expr)
                     expr = self._continue_parsing_expression(expr)
 
             return expr
@@ -1140,8 +1144,15 @@ class Parser:
                 # Move up a level
                 current_depth -= 1
                 if current_depth >= 0:
-                    # Add this array as an element to the parent
-                    array_stack[current_depth].append(array_expr)
+                    # The inner array starts an element of the parent: the element
+                    # may go on ([1].length, [1, 2][0] + 1, [1].concat(x) ...)
+                    element = self._parse_postfix_operators(array_expr)
+                    element = self._continue_parsing_expression(
+                        element, allow_sequence=False
+                    )
+                    array_stack[current_depth].append(element)
+                    if not self._check(TokenType.RBRACKET, TokenType.COMMA):
+                        raise self._error("Expected ',' or ']' after array element")
                 else:
                     # We're done
                     return array_expr
